@@ -137,6 +137,12 @@ PostPair(p, q, link) ==
     IN Post([x \in {p, q} |-> [kind |-> base(x).kind, tags |-> base(other(x)).tags,
                                rels |-> newrels(x), prop |-> (base(x).prop % 2) + 1]])
 
+\* two existing elements (possibly in different blocks) get the same tag set in one request:
+\* the same tag may be dropped from, or added to, both at once
+PostRetag(p, q, T) ==
+    /\ p \in Present /\ q \in Present
+    /\ Post([x \in {p, q} |-> [elems[x] EXCEPT !.tags = T, !.prop = (@ % 2) + 1]])
+
 (***************************************************************************)
 (* DELETE element/<p>: the partners drop their reference                   *)
 (***************************************************************************)
@@ -232,6 +238,7 @@ ANext ==
     /\ depth' = depth + 1
     /\ \/ \E p \in Positions : \E k \in Kinds : \E T \in SUBSET Tags : PostOne(p, k, T)
        \/ \E p \in Positions : \E q \in Positions : p < q /\ \E link \in BOOLEAN : PostPair(p, q, link)
+       \/ \E p \in Positions : \E q \in Positions : p < q /\ \E T \in {{}, {1}} : PostRetag(p, q, T)
        \/ \E p \in Present : Delete(p)
        \/ \E p \in Present : \E q \in Positions \ Present : Move(p, q)
        \/ \E T \in Bodies : \E m \in Bodies \ {T} : AMerge(T, {m})
